@@ -5,6 +5,7 @@ import (
 	"go/constant"
 	"go/token"
 	"go/types"
+	"os"
 	"sort"
 	"strings"
 
@@ -108,6 +109,15 @@ func (a *Analysis) RunFrame(fr *Frame, entry State) State {
 	return a.analyze(fr, entry).All
 }
 
+var traceFn = os.Getenv("RAFTLINT_TRACE")
+
+func trunc(s string, n int) string {
+	if len(s) > n {
+		return s[:n]
+	}
+	return s
+}
+
 func stateKey(s State) string {
 	var b strings.Builder
 	for _, w := range s {
@@ -194,6 +204,9 @@ func (a *Analysis) analyze(f *Frame, entry State) *exitState {
 			if st.IsEmpty() {
 				break
 			}
+			if traceFn != "" && strings.Contains(FuncName(fn), traceFn) {
+				fmt.Fprintf(os.Stderr, "TRACE %s b%d %-60s | %s\n", FuncName(fn), b.Index, trunc(instr.String(), 60), strings.Join(a.Space.DescribeSet(st, 8), " || "))
+			}
 			if a.Hook != nil {
 				st = a.Hook(a, f, instr, st)
 				if st.IsEmpty() {
@@ -202,7 +215,7 @@ func (a *Analysis) analyze(f *Frame, entry State) *exitState {
 			}
 			switch instr := instr.(type) {
 			case *ssa.If:
-				ts, fs := a.branchPred(f, instr.Cond, st, pred)
+				ts, fs := a.splitByValue(f, b, instr, instr.Cond, st, pred, edgeIn)
 				push(b.Succs[0], ts)
 				push(b.Succs[1], fs)
 			case *ssa.Jump:
@@ -210,19 +223,9 @@ func (a *Analysis) analyze(f *Frame, entry State) *exitState {
 			case *ssa.Return:
 				exit.All = Union(exit.All, st)
 				if exit.Split && len(instr.Results) == 1 {
-					if phi, ok := instr.Results[0].(*ssa.Phi); ok && phi.Block() == b && onlyPhisBefore(b, instr) {
-						// value of a short-circuit expression: split per incoming edge
-						for i, pb := range b.Preds {
-							es := Intersect(edgeIn[[2]int{pb.Index, b.Index}], st)
-							ts, fs := a.branchPred(f, phi.Edges[i], es, nil)
-							exit.True = Union(exit.True, ts)
-							exit.False = Union(exit.False, fs)
-						}
-					} else {
-						ts, fs := a.branchPred(f, instr.Results[0], st, pred)
-						exit.True = Union(exit.True, ts)
-						exit.False = Union(exit.False, fs)
-					}
+					ts, fs := a.splitByValue(f, b, instr, instr.Results[0], st, pred, edgeIn)
+					exit.True = Union(exit.True, ts)
+					exit.False = Union(exit.False, fs)
 				}
 			case *ssa.Panic:
 				st = nil
@@ -246,13 +249,49 @@ func (a *Analysis) analyze(f *Frame, entry State) *exitState {
 	return exit
 }
 
-func onlyPhisBefore(b *ssa.BasicBlock, ret ssa.Instruction) bool {
+// splitByValue splits st by the boolean value v used by instruction user (an If or a Return) of
+// block b. A value that is the phi of a short-circuit expression materialised in b is split per
+// incoming edge; otherwise the value itself is recognised.
+func (a *Analysis) splitByValue(f *Frame, b *ssa.BasicBlock, user ssa.Instruction, v ssa.Value, st State, pred map[ssa.Value]*exitState, edgeIn map[[2]int]State) (State, State) {
+	neg := false
+	c := v
+	for {
+		u, ok := c.(*ssa.UnOp)
+		if !ok || u.Op != token.NOT {
+			break
+		}
+		neg = !neg
+		c = u.X
+	}
+	if phi, ok := c.(*ssa.Phi); ok && phi.Block() == b && onlyPhisBefore(b, user, phi) {
+		var ts, fs State
+		for i, pb := range b.Preds {
+			es := Intersect(edgeIn[[2]int{pb.Index, b.Index}], st)
+			t, fl := a.branchPred(f, phi.Edges[i], es, nil)
+			ts = Union(ts, t)
+			fs = Union(fs, fl)
+		}
+		if neg {
+			return fs, ts
+		}
+		return ts, fs
+	}
+	return a.branchPred(f, v, st, pred)
+}
+
+// onlyPhisBefore reports whether everything before user in b is a phi, a debug reference or a
+// negation of the phi (so that the per-edge states still describe the program at user).
+func onlyPhisBefore(b *ssa.BasicBlock, user ssa.Instruction, phi *ssa.Phi) bool {
 	for _, in := range b.Instrs {
-		if in == ret {
+		if in == user {
 			return true
 		}
-		switch in.(type) {
+		switch x := in.(type) {
 		case *ssa.Phi, *ssa.DebugRef:
+		case *ssa.UnOp:
+			if x.Op != token.NOT {
+				return false
+			}
 		default:
 			return false
 		}
@@ -666,7 +705,12 @@ func (a *Analysis) store(f *Frame, addr, val ssa.Value, st State) State {
 	case *ssa.Alloc:
 		st = a.killReg(st, x)
 	case *ssa.IndexAddr:
-		st = a.killMap(st, a.P.Canon(f, x.X))
+		if al := rootAlloc(x.X); al != nil {
+			// element of a local array/slice variable (e.g. a varargs array): only terms that mention it
+			st = a.killReg(st, al)
+		} else {
+			st = a.killMap(st, a.P.Canon(f, x.X))
+		}
 	}
 	st = a.killLoc(st, loc)
 	// establish
@@ -739,6 +783,22 @@ func (a *Analysis) store(f *Frame, addr, val ssa.Value, st State) State {
 		}
 	}
 	return st
+}
+
+// rootAlloc returns the local allocation an address is derived from by field/index steps only.
+func rootAlloc(v ssa.Value) *ssa.Alloc {
+	for {
+		switch x := v.(type) {
+		case *ssa.Alloc:
+			return x
+		case *ssa.FieldAddr:
+			v = x.X
+		case *ssa.IndexAddr:
+			v = x.X
+		default:
+			return nil
+		}
+	}
 }
 
 // compareConstStrings orders two canonical constants (both quoted strings or both integers).
